@@ -40,6 +40,26 @@ Theorem c43_rejects_hidden_in_slice :
 Proof. intros state fs fi h. exact (rejects_hidden_in_slice true state fs fi h). Qed.
 Print Assumptions c43_rejects_hidden_in_slice.
 
+(** The general form: a struct that keeps state in unexported fields and shows no member at
+    all to the encoder (exported fields tagged json:"-" and embedded structs without exported
+    fields do not count) is rejected wherever it occurs in the checkpointed part of a
+    Spec/State: at the top, as a field, as a slice / array / map element, and behind JSON
+    methods declared on the pointer receiver (which a State marshalled by value never uses). *)
+Theorem c43_rejects_hidden_state :
+  forall (state : bool) (t : ty), hidden_state t = true -> validate state t = false.
+Proof. intros state t H. exact (rejects_hidden_state true state t H). Qed.
+Print Assumptions c43_rejects_hidden_state.
+
+Theorem c43_rejects_contains_hidden :
+  forall (state : bool) (t : ty), contains_hidden t = true -> validate state t = false.
+Proof. intros state t H. exact (rejects_contains_hidden t true state H). Qed.
+Print Assumptions c43_rejects_contains_hidden.
+
+Theorem c43_hidden_only_is_hidden_state :
+  forall t, hidden_only t = true -> hidden_state t = true.
+Proof. exact hidden_only_hidden_state. Qed.
+Print Assumptions c43_hidden_only_is_hidden_state.
+
 (** pointers, interfaces, channels, functions and the other unsupported kinds are rejected
     in any field that is not tagged json:"-"; Specs reject nested structs *)
 Theorem c43_rejects_disallowed_kind :
@@ -93,6 +113,12 @@ Example c43_sound_on_plain_nonvacuous :
   validate_state t_good = true /\ plain t_good = true /\ wf t_good v_good = true /\
   roundtrip t_good v_good = Some v_good.
 Proof. exact good_example. Qed.
+
+Example c43_rejects_hidden_state_nonvacuous :
+  hidden_state t_dash = true /\ validate_state t_dash = false /\
+  hidden_state t_embnone = true /\ validate_state t_embnone = false /\
+  contains_hidden t_ptrset = true /\ validate_state t_ptrset = false.
+Proof. exact hidden_state_examples. Qed.
 
 Example c43_rejects_hidden_nonvacuous : hidden_only t_hidden = true /\ validate_state t_hidden = false.
 Proof. exact hidden_example. Qed.
